@@ -421,7 +421,7 @@ def configs(tier):
         ("hals_fixed_last_norm", "tensorly.decomposition.non_negative_parafac_hals", run_hals, dict(_init="plain", fixed_modes="last", normalize_factors=True), NN, [3], K),
         # options that feed into (or sit next to) the error expression, each with a NON-ZERO value
         ("hals_sparse", "tensorly.decomposition.non_negative_parafac_hals", run_hals, dict(init="random", sparsity_coefficients=[0.2, 0.1, 0.3, 0.1]), NN, [3, 4], K),
-        ("hals_sparse_norm_exact", "tensorly.decomposition.non_negative_parafac_hals", run_hals, dict(init="random", sparsity_coefficients=[0.3, 0.2, 0.1, 0.1], exact=True, normalize_factors=True), NN, [3], K),
+        ("hals_sparse_norm_exact", "tensorly.decomposition.non_negative_parafac_hals", run_hals, dict(init="random", sparsity_coefficients=[0.3, 0.2, 0.1, 0.1], exact=True, normalize_factors=True), NN, [3], K[:1]),   # exact=True costs ~4 s CPU per sweep
         ("hals_sparse_fixed_last", "tensorly.decomposition.non_negative_parafac_hals", run_hals, dict(_init="plain", sparsity_coefficients=[0.2, 0.2, 0.2, 0.2], fixed_modes="last", normalize_factors=True), NN, [3], K),
         ("hals_winit_fixed_last", "tensorly.decomposition.non_negative_parafac_hals", run_hals, dict(_init="weighted", fixed_modes="last"), NN, [3], K),
         ("hals_nn_some", "tensorly.decomposition.non_negative_parafac_hals", run_hals, dict(init="random", nn_modes={0}), NN, [3], K),
@@ -448,7 +448,11 @@ def configs(tier):
         ("nn_tucker_hals_tol", "tensorly.decomposition.non_negative_tucker_hals", run_nn_tucker_hals, dict(init="svd", _tol=1e-3), NN, [3], KT),
         ("nn_tucker_hals_sparse", "tensorly.decomposition.non_negative_tucker_hals", run_nn_tucker_hals, dict(init="svd", sparsity_coefficients=[0.3, 0.2, 0.4, 0.2]), NN, [2, 3], K),
         ("nn_tucker_hals_sparse_all", "tensorly.decomposition.non_negative_tucker_hals", run_nn_tucker_hals,
-         dict(init="svd", sparsity_coefficients=[0.02, 0.03, 0.02], core_sparsity_coefficient=0.02, exact=True), NN, [3], K),
+         dict(init="svd", sparsity_coefficients=[0.02, 0.03, 0.02], core_sparsity_coefficient=0.02), NN, [3], K),
+    ] + ([] if q else [
+        ("nn_tucker_hals_exact", "tensorly.decomposition.non_negative_tucker_hals", run_nn_tucker_hals,
+         dict(init="svd", sparsity_coefficients=[0.02, 0.03, 0.02], exact=True), NN, [3], K[:1]),
+    ]) + [
         ("nn_tucker_hals_core_sparse_norm", "tensorly.decomposition.non_negative_tucker_hals", run_nn_tucker_hals,
          dict(init="svd", core_sparsity_coefficient=0.05, normalize_factors=True), NN, [3], K),
         ("nn_tucker_hals_sparse_as", "tensorly.decomposition.non_negative_tucker_hals", run_nn_tucker_hals,
@@ -476,6 +480,7 @@ def configs(tier):
 
 
 NO_PREFIX = ("nn_tucker_hals",)   # fista / active-set inner loops are capped by the OUTER n_iter_max   # fista/active-set inner loops are capped by the OUTER n_iter_max; PARAFAC2's line search overwrites rec_errors[-1]
+SLOW_CONFIGS = ("hals_sparse_norm_exact", "nn_tucker_hals_exact")   # exact=True: seconds of CPU per sweep
 LS_CONFIGS = ("parafac_ls", "parafac_ls_cb", "parafac_ls_norm", "parafac_ls_mask", "parafac_ls_sparse", "parafac2_ls", "parafac2_ls_norm")
 # shapes whose last two modes have the same size: a shortcut pairing the MTTKRP with the wrong factor then yields a wrong NUMBER instead of a shape error
 SHAPES_EQ = {2: [(4, 4)], 3: [(3, 3, 3)], 4: [(2, 2, 2, 2)]}
@@ -921,6 +926,8 @@ def gen_runs(tier, rng):
                 picks = [(shp[rng.randrange(len(shp))], kinds[rng.randrange(len(kinds))])]
             else:
                 picks = [(s, kd) for s in shp for kd in kinds]
+            if name in SLOW_CONFIGS:
+                picks = picks[:2]
             if name in LS_CONFIGS:
                 # several seeds: accepted AND rejected jumps at the last iteration are both wanted (decisions are data dependent);
                 # run() stops drawing further seeds for a configuration once both have been seen
